@@ -110,7 +110,11 @@ PROPS = {
     level_note=LN_HANDLES + " The teardown model is a region protocol (pool alive/freed): the allocator-level use-after-free itself is only observed on the real code as a crash of the child process.",
     lean=["C05", "C13_ZeroCopy", "Tags"],
     scenarios=[handles("atomic", 1200), handles("fullsync", 1200), dict(bin="teardown", args=[], runs=100, model=False, single=True, thorough_scale=10, model_name="Teardown (generated field orders)")] +
-              [dict(bin="multi", args=[f"kind={k}", f"sub={sub}", "drains=1"], runs=300, model_name="M6+M7 Multi", kinds=["destroyed_while_held", "slot_reused_while_held", "held_value_changed", "panic"]) for k in ["ogre_atomic", "ogre_fullsync", "arc_atomic"] for sub in ["fan", "churn"]],
+              [dict(bin="multi", args=[f"kind={k}", f"sub={sub}", "drains=1"], runs=300, model_name="M6+M7 Multi", kinds=["destroyed_while_held", "slot_reused_while_held", "held_value_changed", "panic"]) for k in ["ogre_atomic", "ogre_fullsync", "arc_atomic"] for sub in ["fan", "churn"]] +
+              # MOVABLE payloads (after seeded C05-5): a value yielded twice is a payload destroyed twice, a value lost in the ring a payload never destroyed, a value nobody
+              # sent a slot handed out while its content was still owned -- the ring scenarios and the fine-grained Uni search, judged for exactly that
+              [ring(k, "mixed", 600, kinds=["duplicate", "lost", "invented"]) for k in ("atomic", "fullsync")] +
+              [dict(bin="uni", args=[f"kind={k}", "sub=fine"], runs=300, model=False, model_name="(oracle only, fine granularity: movable payloads)", kinds=["lost", "invented", "duplicate", "panic"]) for k in ["matomic", "mfullsync"]],
     rule=HANDLES_RULE + "; teardown: histories (events sent, consumed, handles released before/after) per channel kind, each in a child process",
     trusted_base=TB_COMMON + ["tools/extract.py (field-order translator): a mis-parse makes the generated obligation fail or pass wrongly; its output is committed to the evidence"],
     assumptions=["payload handles do not outlive their channel", "setters initialise the slot without reading or dropping its previous bytes"],
